@@ -33,6 +33,12 @@ SYMBOL_ROLE = re.compile(r":symbols:`(\w*)`")
 QUANTITY_ROLE = re.compile(r":quantity_notation:`(\w*)`")
 BUILTINS = set(dir(builtins))
 EXCLUDED_DIRS = ("core", )
+# (module, function path, sha256[:16] of ast.dump of the function as of the tree the replica was derived from)
+REPLICA_ANCHORS = [
+    ("symplyphysics.docs.patch", "patch_sympy_evaluate", "b7ce6be4fff4f5f5"),
+    ("symplyphysics.docs.parse", "find_members_and_functions", "a26edcada915933d"),
+    ("symplyphysics.docs.parse", "find_title_and_description", "6407bbfba17c09e5"),
+]
 
 
 def _is_private(s: str) -> bool:
@@ -111,9 +117,24 @@ def _patcher_anchors(run: Run) -> None:
                          ("':laws:sympy-eval::' in s", "sympy-eval opt-out")):
         if needle not in text:
             raise AnalysisError(f"C19: docs/patch.py no longer contains `{needle}` ({what}): the checker's replica of the kept-prefix rule is stale")
+    # the replica in this checker (kept_prefix, member/docstring association) mirrors two functions of the generator; any change of
+    # their code (not of comments/formatting) means the replica must be re-derived: the analysis refuses instead of guessing
+    import hashlib
+    for modname, path, want in REPLICA_ANCHORS:
+        mm = run.src.need(modname)
+        cur = mm.tree
+        for part in path.split("."):
+            cur = next((x for x in ast.walk(cur) if isinstance(x, (ast.FunctionDef, ast.ClassDef)) and x.name == part and x is not cur), None)
+            if cur is None:
+                raise AnalysisError(f"C19: {modname}:{path} not found")
+        got = hashlib.sha256(ast.dump(cur, annotate_fields=False, include_attributes=False).encode()).hexdigest()[:16]
+        if want and got != want:
+            return (f"C19: the code of {modname}:{path} changed (digest {got}, replica derived from {want}): "
+                    f"the checker's replica of that rule must be re-derived before the generator's inputs can be judged")
     p = run.src.need(DOCS + "parse")
     if "exec(compiled, {}, context)" not in ast.unparse(p.tree):
         raise AnalysisError("C19: docs/parse.py no longer runs exec(compiled, {}, context): rule D1 must be re-derived")
+    return None
 
 
 # ------------------------------------------------------------------------------------------ D1
@@ -238,8 +259,18 @@ def check(run: Run) -> None:
         ("D7", "every evaluation-disable insertion is paired with a reset insertion; reset restores the default True"),
     ]:
         run.rule(rid, text)
-    _patcher_anchors(run)
+    stale = _patcher_anchors(run)
     w = World(run.src)
+    if stale:
+        # rules D1-D4 judge the generator's *inputs* through the replica: not decidable now. The rules about the generator's own
+        # code (D5 tables, D6 ordering, D7 pairing) do not depend on it and are still evaluated; without a finding the run refuses.
+        run.skip("D1", "symplyphysics/docs/patch.py", stale)
+        _d5_tables_only = True
+        _d6(run, w)
+        _d7(run, w)
+        if not run.findings:
+            raise AnalysisError(stale)
+        return
     walked = walked_modules(run)
     documented = []
     for m in walked:
